@@ -74,6 +74,9 @@ type replayDoc struct {
 	// Stress > 0: the counterexample includes a thread schedule the native run cannot impose; the native
 	// replay repeats the harness up to Stress times and confirms the violation if any repetition shows it
 	Stress int `json:"stress,omitempty"`
+	// cross-check samples (Kind "sample"): the digest the engine computed on this path
+	TraceSum uint64 `json:"trace_sum,omitempty"`
+	TraceN   int    `json:"trace_n,omitempty"`
 }
 
 // ---------------------------------------------------------------- one harness exploration
@@ -98,6 +101,7 @@ type harnessResult struct {
 	Panics       map[string]int
 	Reached      map[string]int
 	Samples      []string
+	PathSamples  []interp.PathSample
 	Funcs        []funcInfo
 	Errors       []string
 	MissingReach []string
@@ -113,7 +117,7 @@ type worker struct {
 func startWorker(id int, hs harnessSpec, params map[string]int, known []string) (*worker, error) {
 	self, _ := os.Executable()
 	pj, _ := json.Marshal(params)
-	args := []string{"worker", "-pkg", hs.Pkg, "-fn", hs.Fn, "-params", string(pj), "-known", strings.Join(known, ",")}
+	args := []string{"worker", "-pkg", hs.Pkg, "-fn", hs.Fn, "-params", string(pj), "-known", strings.Join(known, ","), "-samples", envOr("VERIF_SAMPLES", "4")}
 	if hs.StepLimit > 0 {
 		args = append(args, "-steplimit", strconv.FormatInt(hs.StepLimit, 10))
 	}
@@ -262,6 +266,7 @@ func exploreHarness(hs harnessSpec, tier string, known []string) *harnessResult 
 			if len(hr.Samples) < 6 {
 				hr.Samples = append(hr.Samples, res.Samples...)
 			}
+			hr.PathSamples = append(hr.PathSamples, res.PathSamples...)
 			queue = append(queue, res.Open...)
 			idle = append(idle, ev.w)
 		case r.Funcs != nil || finishing:
@@ -310,6 +315,8 @@ func exploreHarness(hs harnessSpec, tier string, known []string) *harnessResult 
 // ---------------------------------------------------------------- native replay
 
 type replayOutcome struct {
+	TraceSum uint64   `json:"trace_sum"` // digest of the nd.Assert / nd.Reach calls of the native run
+	TraceN   int      `json:"trace_n"`
 	File     string   `json:"file"`
 	Failed   []string `json:"failed"`   // assertion ids that failed natively
 	Panic    string   `json:"panic"`    // uncaught panic (message + in-module frames)
@@ -696,10 +703,23 @@ func checkMain(args []string) int {
 		}
 	}
 
+	// 3. translator cross-check: sampled violation-free paths, made concrete by the solver, are run natively
+	cross := crossCheck(prop, results, confirmed)
+	if cross.Replayed > 0 || len(cross.Mismatches) > 0 || cross.Error != "" {
+		fmt.Printf("cross-check: %d sampled paths replayed natively, %d identical (same assertions and reach labels executed, none failed), %d mismatches %s\n",
+			cross.Replayed, cross.Identical, len(cross.Mismatches), cross.Error)
+	}
+	for _, mm := range cross.Mismatches {
+		fmt.Println("SAMPLE-MISMATCH:", mm)
+		if os.Getenv("VERIF_STRICT_SAMPLES") != "" {
+			inconclusive = append(inconclusive, "SAMPLE-MISMATCH: "+mm)
+		}
+	}
+
 	// 4. evidence
 	wall := time.Since(t0).Seconds()
 	if !*keep {
-		writeEvidence(prop, *tier, seed, spec, results, confirmed, nViol, violSamples, inconclusive, wall)
+		writeEvidence(prop, *tier, seed, spec, results, confirmed, nViol, violSamples, inconclusive, wall, cross)
 	}
 	sort.Strings(violLines)
 	for _, l := range violLines {
@@ -742,7 +762,76 @@ func compactValues(v map[string]uint64) string {
 	return strings.TrimSpace(sb.String())
 }
 
-func writeEvidence(prop, tier string, seed int, spec checkSpec, results []*harnessResult, confirmed []string, nViol int, violSamples []interface{}, inconclusive []string, wall float64) {
+// crossResult: outcome of the native replay of sampled paths.
+type crossResult struct {
+	Replayed   int      `json:"sampled_paths_replayed_natively"`
+	Identical  int      `json:"identical"`
+	Mismatches []string `json:"mismatches"`
+	Error      string   `json:"error,omitempty"`
+	What       string   `json:"what"`
+}
+
+// crossCheck writes the sampled paths of every harness as replay files, runs them natively (one build per
+// package) and compares: the native run must finish, fail no assertion, violate no assumption and execute
+// the same multiset of nd.Assert / nd.Reach calls as the engine did on that path.
+func crossCheck(prop string, results []*harnessResult, known []string) crossResult {
+	cr := crossResult{Mismatches: []string{}, What: "differential test of the engine against the compiled code: completed violation-free paths (the 1st, 2nd, 4th, 8th ... of every worker) are made concrete with a solver model and the harness is run natively on those inputs; identical = it finished, no assertion failed, no assumption was violated and the same multiset of nd.Assert / nd.Reach calls was executed"}
+	if os.Getenv("VERIF_SAMPLES") == "0" {
+		return cr
+	}
+	dir := filepath.Join(verifRoot, "replays", "samples", prop)
+	os.RemoveAll(dir)
+	os.MkdirAll(dir, 0o755)
+	byPkg := map[string][]string{}
+	docs := map[string]replayDoc{}
+	for hi, hr := range results {
+		for i, ps := range hr.PathSamples {
+			d := replayDoc{Property: prop, Harness: hr.Spec.Fn, Pkg: hr.Spec.Pkg, Kind: "sample", Values: ps.Values, Params: hr.Params, Known: known, TraceSum: ps.Sum, TraceN: ps.N}
+			if d.Known == nil {
+				d.Known = []string{}
+			}
+			b, _ := json.MarshalIndent(d, "", " ")
+			path := filepath.Join(dir, fmt.Sprintf("%s-%d-%03d.json", hr.Spec.Fn, hi, i))
+			os.WriteFile(path, b, 0o644)
+			byPkg[hr.Spec.Pkg] = append(byPkg[hr.Spec.Pkg], path)
+			docs[path] = d
+		}
+	}
+	var mu sync.Mutex
+	var wg sync.WaitGroup
+	for pkg, files := range byPkg {
+		wg.Add(1)
+		go func(pkg string, files []string) {
+			defer wg.Done()
+			outs, txt, err := replayNative(pkg, files, false)
+			mu.Lock()
+			defer mu.Unlock()
+			if err != nil {
+				logf := filepath.Join(verifRoot, ".cache", "crosscheck_"+strings.ReplaceAll(relPkgDir(pkg), "/", "_")+".log")
+				os.WriteFile(logf, []byte(txt), 0o644)
+				cr.Error += fmt.Sprintf("(native build/run in %s failed: %v; output in %s) ", pkg, err, logf)
+				return
+			}
+			for _, f := range files {
+				d, o := docs[f], outs[f]
+				cr.Replayed++
+				switch {
+				case !o.Finished || o.Panic != "" || o.Assume || o.Hang || len(o.Failed) > 0:
+					cr.Mismatches = append(cr.Mismatches, fmt.Sprintf("%s %s: native run finished=%v failed=%v assume-violated=%v panic=%q", d.Harness, filepath.Base(f), o.Finished, o.Failed, o.Assume, firstLines(o.Panic, 2)))
+				case o.TraceSum != d.TraceSum || o.TraceN != d.TraceN:
+					cr.Mismatches = append(cr.Mismatches, fmt.Sprintf("%s %s: the engine executed %d nd.Assert/nd.Reach calls (digest %x), the native run %d (digest %x)", d.Harness, filepath.Base(f), d.TraceN, d.TraceSum, o.TraceN, o.TraceSum))
+				default:
+					cr.Identical++
+				}
+			}
+		}(pkg, files)
+	}
+	wg.Wait()
+	sort.Strings(cr.Mismatches)
+	return cr
+}
+
+func writeEvidence(prop, tier string, seed int, spec checkSpec, results []*harnessResult, confirmed []string, nViol int, violSamples []interface{}, inconclusive []string, wall float64, cross crossResult) {
 	paths, nontriv, obl, dis, queries := 0, 0, 0, 0, 0
 	solver := 0.0
 	var perHarness []interface{}
@@ -809,6 +898,7 @@ func writeEvidence(prop, tier string, seed int, spec checkSpec, results []*harne
 			"functions_encoded":   funcs,
 			"known_findings_confirmed_and_excluded": confirmed,
 			"inconclusive":        inconclusive,
+			"translator_cross_check": cross,
 			"samples":             samples,
 			"checker_cmd":         "/verif/bin/symgo check " + prop + " --tier " + tier,
 			"trusted_base":        []string{"symgo engine + library models", "z3 4.8.12", "go/ssa builder (x/tools v0.29.0)", "reference models in /verif/harness/vspec"},
